@@ -308,3 +308,58 @@ def r_solverdispatch(idx, rep, rule="R-SOLVERDISPATCH"):
     d = idx.func(J + "::_distance_loop")
     fb = [st for st in ast.walk(d.node) if isinstance(st, ast.AugAssign) and isinstance(st.op, ast.BitOr) and "1 << " in u(st.value)]
     rep.check(len(fb) == 1, rule, d.key + "|fallback mask keeps the old points", d.where, "fallback simplex mask `simplex |= 1 << i` over the old points not found")
+
+
+def r_weightrole(idx, rep, rule="R-WEIGHTROLE"):
+    """get_barycentric_coordinates_plane(a, b, c) returns (u, v, w) = the weights of (a, b, c).  In its degenerate fall-backs the weights of an
+    edge come from get_barycentric_coordinates_line(x, y): they must be bound to the return slots of x and y, the third slot is 0; in the
+    regular branches one weight is 1 minus the other two (partition of unity)."""
+    rep.rule(rule, "jolt barycentric coordinates of a triangle: the weights returned for an edge (x, y) go to the return slots of x and y, the third "
+                   "weight is 0.0, and the closed-form branches define one weight as 1 - the other two (weights always sum to 1 and stay with their vertices)",
+             floor=6)
+    f = idx.func("distance3d.gjk._gjk_jolt::get_barycentric_coordinates_plane")
+    ps = f.params()
+    rets = [st for st in ast.walk(f.node) if isinstance(st, ast.Return) and isinstance(st.value, ast.Tuple) and len(st.value.elts) == 3]
+    if len(rets) != 1 or not all(isinstance(e, ast.Name) for e in rets[0].value.elts):
+        raise AnalysisError("get_barycentric_coordinates_plane: single `return u, v, w` expected")
+    slots = [e.id for e in rets[0].value.elts]
+    slot_of = dict(zip(ps[:3], slots))
+    n = 0
+
+    def blocks(body):
+        for st in body:
+            if isinstance(st, ast.If):
+                yield from blocks(st.body)
+                yield from blocks(st.orelse)
+        yield body
+    for blk in blocks(f.node.body):
+        for st in blk:
+            if isinstance(st, ast.Assign) and isinstance(st.targets[0], ast.Tuple) and isinstance(st.value, ast.Call) \
+                    and (call_name(st.value) or "").endswith("get_barycentric_coordinates_line") and len(st.value.args) == 2:
+                n += 1
+                x, y = [u(a) for a in st.value.args]
+                tg = [u(e) for e in st.targets[0].elts]
+                where = "%s:%d" % (f.module.relpath, st.lineno)
+                key = "%s|edge (%s, %s) weights keep their vertices" % (f.key, x, y)
+                want = [slot_of.get(x), slot_of.get(y)]
+                third = [s for s in slots if s not in want]
+                zero = [s2 for s2 in blk if isinstance(s2, ast.Assign) and len(s2.targets) == 1 and u(s2.targets[0]) in third and const(s2.value) in (0, 0.0)]
+                rep.check(tg == want and len(third) == 1 and len(zero) == 1, rule, key, where,
+                          "`%s`: the weights of the edge (%s, %s) must be bound to (%s, %s) — the return slots of those vertices — and `%s` set to 0.0; "
+                          "otherwise a vertex receives another vertex's weight and the closest points on A and B are built from the wrong vertices (|a - b| != d)"
+                          % (u(st), x, y, want[0], want[1], third[0] if third else "?"), "(%s, %s), %s = 0" % (want[0], want[1], third[0] if third else "?"))
+            if isinstance(st, ast.Assign) and len(st.targets) == 1 and isinstance(st.targets[0], ast.Name) and st.targets[0].id in slots \
+                    and isinstance(st.value, ast.BinOp) and isinstance(st.value.op, ast.Sub):
+                # 1.0 - x - y
+                terms = []
+                e = st.value
+                while isinstance(e, ast.BinOp) and isinstance(e.op, ast.Sub):
+                    terms.append(u(e.right))
+                    e = e.left
+                if const(e) in (1, 1.0):
+                    n += 1
+                    others = sorted(s for s in slots if s != st.targets[0].id)
+                    rep.check(sorted(terms) == others, rule, "%s|%s = 1 - the other two" % (f.key, st.targets[0].id), "%s:%d" % (f.module.relpath, st.lineno),
+                              "`%s` is not 1 minus the other two weights %s: the weights do not sum to 1" % (u(st), others), "partition of unity")
+    if n < 6:
+        rep.error("R-WEIGHTROLE: only %d weight bindings found in get_barycentric_coordinates_plane" % n)
